@@ -2552,10 +2552,10 @@ template< size_t L> inline
    int FixedString< L>::partPartCompareImpl( size_t pos1, size_t count1,
       const char* str, size_t len2, size_t pos2, size_t count2) const noexcept
 {
-   if (pos1 >= mLength)
+   if (pos1 > mLength)
       return (pos2 >= len2) ? 0 : 1;
-   if (pos2 >= len2)
-      return -1;
+   if (pos2 > len2)
+      return (pos1 == mLength) ? 0 : -1;
 
    const size_t  str_len1 = (count1 > mLength - pos1) ? (mLength - pos1) : count1;
    const size_t  str_len2 = (count2 > len2 - pos2) ? (len2 - pos2) : count2;
